@@ -1,8 +1,8 @@
 #!/bin/bash
 # mutsweep.sh <file-relative-to-repo> <check-id>... [-- funcs]
-# Generates single-point mutants of the file (cmd/mutgen), applies each to /repo's
-# working tree in turn, runs the quick checks until one reports a violation, and
-# reverts. Survivors are then run against the package's own tests. One line per
+# Generates single-point mutants of the file (cmd/mutgen), applies each in turn to
+# a scratch worktree of /repo's HEAD (VERIF_REPO; /repo itself is not touched),
+# runs the quick checks until one reports a violation, and reverts. Survivors are then run against the package's own tests. One line per
 # mutant goes to mutations/sweep-<name>.tsv. A demonstration aid, not a check.
 set -u
 cd "$(dirname "$0")"
@@ -14,31 +14,35 @@ name=$(echo "$rel" | tr '/.' '--')
 out=/dev/shm/mut/$name
 rm -rf $out; mkdir -p $out mutations
 [ -x bin/mutgen ] || go build -o bin/mutgen ./cmd/mutgen
-git -C /repo diff --quiet || { echo "/repo not clean"; exit 2; }
-bin/mutgen -file /repo/$rel -out $out ${funcs:+-funcs $funcs}
+R=/dev/shm/mutrepo-$name
+git -C /repo worktree remove --force $R 2>/dev/null
+git -C /repo worktree add -q --detach $R HEAD || exit 2
+export VERIF_REPO=$R VERIF_OUT=$out/outroot
+mkdir -p $VERIF_OUT
+bin/mutgen -file $R/$rel -out $out ${funcs:+-funcs $funcs}
 tsv=mutations/sweep-$name.tsv
 echo -e "id\tline\tfunc\tmutation\tresult\tby" > $tsv
-trap 'git -C /repo checkout -- . ' EXIT
+trap 'git -C /repo worktree remove --force $R' EXIT
 pkg=$(dirname $rel)
 n=$(python3 -c "import json;print(len(json.load(open('$out/index.json'))))")
 for i in $(seq 0 $((n-1))); do
   read -r id line fn file desc < <(python3 -c "
 import json;m=json.load(open('$out/index.json'))[$i];print(m['id'],m['line'],m['func'],m['file'],m['desc'].replace('\t',' '))")
-  cp $out/$file /repo/$rel
+  cp $out/$file $R/$rel
   res=survived; by=""
-  if ! (cd /repo && go build ./... ) >/dev/null 2>&1; then res=nobuild
+  if ! (cd $R && go build ./... ) >/dev/null 2>&1; then res=nobuild
   else
     for c in "${checks[@]}"; do
-      timeout 600 ./check $c --tier quick > $out/log 2>&1; rc=$?
+      timeout 900 ./check $c --tier quick > $out/log 2>&1; rc=$?
       if [ $rc = 1 ]; then res=killed; by=$c; break; fi
       if [ $rc = 124 ]; then res=hang; by=$c; break; fi
       if [ $rc != 0 ]; then res=harness; by="$c: $(grep -m1 HARNESS $out/log | cut -c1-120)"; break; fi
     done
     if [ $res = survived ]; then
-      if ! (cd /repo && timeout 600 go test -vet=off -count=1 ./$pkg/... ) > $out/testlog 2>&1; then res=survived-but-package-tests-fail; fi
+      if ! (cd $R && timeout 600 go test -vet=off -count=1 ./$pkg/... ) > $out/testlog 2>&1; then res=survived-but-package-tests-fail; fi
     fi
   fi
-  git -C /repo checkout -- .
+  git -C $R checkout -- .
   echo -e "$id\t$line\t$fn\t$desc\t$res\t$by" >> $tsv
 done
 awk -F'\t' 'NR>1{c[$5]++} END{for(k in c) print k, c[k]}' $tsv
